@@ -23,9 +23,9 @@ if [ -f "$dir/RUN.txt" ]; then
   demo=$(ls "$dir" | grep -E '_test\.go$|main\.go$' | head -1); [ -f "$dir/demo_test.go" ] && demo=demo_test.go
   if [ -n "$dest" ] && [ -n "$demo" ]; then
     mkdir -p "$(dirname "$dest")"; cp "$dir/$demo" "$dest"
-    if timeout 600 bash -c "$cmd" >/tmp/$name.demo1 2>&1; then res "demo-with-change: PASSES (unexpected)"; else res "demo-with-change: fails (expected)"; fi
+    if timeout 600 bash -o pipefail -c "$cmd" >/tmp/$name.demo1 2>&1; then res "demo-with-change: PASSES (unexpected)"; else res "demo-with-change: fails (expected)"; fi
     git diff > /tmp/$name.applied; git checkout -q -- .
-    if timeout 600 bash -c "$cmd" >/tmp/$name.demo0 2>&1; then res "demo-without-change: passes (expected)"; else res "demo-without-change: FAILS (unexpected)"; tail -5 /tmp/$name.demo0; fi
+    if timeout 600 bash -o pipefail -c "$cmd" >/tmp/$name.demo0 2>&1; then res "demo-without-change: passes (expected)"; else res "demo-without-change: FAILS (unexpected)"; tail -5 /tmp/$name.demo0; fi
     rm -f "$dest"; git apply /tmp/$name.applied
   fi
 fi
